@@ -1,6 +1,6 @@
 (* Executable observation functions for the C10 correspondence check. *)
 From Verif.Lib Require Import GoSem Bits.
-From Verif.Gen Require Import Consts.
+From Verif.Gen Require Import Consts Dispatch.
 From Verif.Model Require Export PeerRecord ClientRpc.
 Local Open Scope Z_scope.
 
